@@ -817,9 +817,9 @@ MAIN = {
     ),
     "C04": dict(
         mc=dict(quick=SEARCH_Q, thorough=SEARCH_T),
-        traces=dict(quick=[dict(profile="search", jobs=8, count=30), dict(family="skewed", jobs=4, count=5, seed_off=60)],
+        traces=dict(quick=[dict(profile="search", jobs=8, count=30), dict(family="skewed", jobs=4, count=5, seed_off=60), dict(family="overwrite", jobs=4, count=12, seed_off=80)],
                     thorough=[dict(profile="search", jobs=16, count=400), dict(profile="forest", jobs=8, count=400, seed_off=100),
-                              dict(family="skewed", jobs=8, count=15, seed_off=60)]),
+                              dict(family="skewed", jobs=8, count=15, seed_off=60), dict(family="overwrite", jobs=8, count=150, seed_off=80)]),
         distinct=distinct_forests, sample_event="Build",
     ),
     "C05": dict(
@@ -1004,6 +1004,9 @@ MAIN["C08"] = dict(
                                   rule="one case per snapshot observation made by a reader thread while the writer thread was adding, building, committing or aborting "
                                        "(real threads, 1-8 readers, builder pools of 1 and 4 threads), plus one per single-threaded commit/abort history"),
     sample_event="Abort", selftest_as="C08",
+    # "an aborted transaction leaves no trace": whatever the next transaction of this driver does wrong after an abort
+    # (a build that does nothing, a stale answer) is a trace; the store driver commits, aborts and rebuilds with long-lived writers
+    also=lambda prop, conj: prop in ("C01", "C05", "C06"),
 )
 MAIN["C09"] = dict(
     mc=dict(quick=[mct("txn_crash")], thorough=[mct("txn_crash_3readers", {"Readers": "{1, 2, 3}", "MaxVersion": "4"}, timeout=900)]),
@@ -1079,7 +1082,10 @@ MAIN["C17"] = dict(
 )
 MAIN["C12"] = dict(
     mc=dict(quick=[mcnum()], thorough=[mcnum()]),
-    traces=dict(quick=[], thorough=[]),
+    # end to end: quantised indexes whose metric is changed (between the quantised metrics the leaf layout is the same and
+    # only the meaning of the header differs) and searched; the distance and header conjuncts of that driver count for C12
+    traces=dict(quick=[dict(profile="bqmetric", jobs=4, count=30, seed_off=90)], thorough=[dict(profile="bqmetric", jobs=8, count=300, seed_off=90)]),
+    also=lambda prop, conj: prop in ("C02", "C18") or (prop == "C03" and conj in ("reported_distance_wrong", "not_nearest_first")),
     extra_jobs=dict(quick=[dict(name="bq", kind="bq", module="TraceNum.tla", heap="6g", args=["numeric", "--kind", "bq"])],
                     thorough=[dict(name=f"bq{j}", kind="bq", module="TraceNum.tla", heap="8g", args=["numeric", "--kind", "bq", "--salt", str(j)]) for j in range(3)]),
     distinct=lambda results: dict(n=sum(r["stats"]["events"] for r in results),
